@@ -15,6 +15,8 @@ pub fn scenarios(tier: &str) -> Vec<Scenario> {
         m_block("B(T(s0,n0))", vec![exec0]),
         m_mine(1),
         m_commit(0),
+        // a reorg to the current height changes no answer either, and (like every reorg) commits
+        m_reorg(0, RTarget::Fwd(0)),
         mac("K", Kind::Dev(1), vec![Step::Clear]),
         mac("Kmid", Kind::Dev(1), vec![Step::Tx(s_set(0, 0, 3)), Step::Clear]),
         mac("Kmid-parked", Kind::Dev(1), vec![Step::Tx(park), Step::Clear]),
